@@ -89,7 +89,10 @@ impl SentenceDetector {
         }
     }
     pub fn with_limit(limit: usize) -> Self {
-        SentenceDetector { limit }
+        // a window of 0 characters can never advance: use the default, as Sudachi (Java) does
+        SentenceDetector {
+            limit: if limit > 0 { limit } else { DEFAULT_LIMIT },
+        }
     }
 
     /// Returns the byte index of the detected end of the sentence.
